@@ -41,6 +41,7 @@ def run(ctx):
     check_split_table(ctx, V)
     check_composition(ctx, 'R10.2')
     check_implies_strip(ctx)
+    RF.check_plan_invariants(ctx, 'R10.2')
     check_operators(ctx)
     check_stripws(ctx)
     # the serializer right-strips exactly the lines outside quoted text: its idea of a quoted region must agree with the lexer's
